@@ -220,3 +220,11 @@ MUTANTS += [
     ("c17_flat_tolerance_relative", Q, "test_results = np.ma.filled(data_range < tolerance, fill_value=False)", "test_results = np.ma.filled(data_range < tolerance * (1 + 0 * np.abs(data_max)) + (np.abs(data_max) > 500) * 1.0, fill_value=False)", ["C17"]),
     ("c17_speed_epoch_anchor", R, "        dist[1:] / np.diff(tinp).astype(\"timedelta64[s]\").astype(float),", "        dist[1:] / np.diff(tinp.astype(\"datetime64[s]\").astype(\"int64\").astype(\"float32\")).astype(float),", ["C17"]),
 ]
+MUTANTS += [
+    ("c15_epoch_as_ms", UT, 'pd.to_datetime(dates, unit="s")', 'pd.to_datetime(dates, unit="ms")', ["C15"]),
+    ("c15_tz_convert_local", UT, "        return dates.tz_localize(None).astype(\"datetime64[ns]\").to_numpy()", "        return dates.tz_convert(\"US/Eastern\").tz_localize(None).astype(\"datetime64[ns]\").to_numpy()", ["C15"]),
+    ("c15_tzaware_index_regress", UT, "        dates = getattr(dates, \"dt\", dates)\n", "        dates = dates.dt\n", ["C15"]),
+    ("c15_valid_list_regress", A, "    original_shape = np.shape(inp)", "    original_shape = inp.shape", ["C15"]),
+    ("c15_pandas_naive_day_resolution", UT, "        # pandas time objects without a datetime component\n        return dates.to_numpy().astype(\"datetime64[ns]\")", "        # pandas time objects without a datetime component\n        return dates.to_numpy().astype(\"datetime64[m]\").astype(\"datetime64[ns]\")", ["C15"]),
+    ("c15_density_z_mask_dropped", Q, "        zinp = np.ma.masked_invalid(np.ma.array(zinp).astype(np.float64).filled(np.nan))\n\n    # Make sure both inputs are the same size.", "        zinp = np.ma.masked_invalid(np.array(zinp).astype(np.float64))\n\n    # Make sure both inputs are the same size.", ["C15"]),
+]
